@@ -250,3 +250,114 @@ def fidelity(tier, seed):
 from contracts.shared import reregister as _rr_static
 from contracts import c19 as _c19_static
 _rr_static('C03', 'C19', 'C19.no_stateful_local_statics', 'C03.lemma.no_state_between_calls', replay=None)
+
+# ------------------------------------------------------------------------------------------------ the model the formula is evaluated for: T_f = Y_f A_f after every entry point
+# amu1LChi0 takes the smuon mixing from the mass matrix the model built with TYe(1,1), and the documented formula is stated in terms of y_mu and A_mu: the two agree only if the
+# trilinear couplings are those of the Yukawa couplings and A parameters the model reports.  Invariant of every public entry that changes the Yukawa couplings.
+TRILINEAR_REPLAY = r"""
+#include "gm2calc/MSSMNoFV_onshell.hpp"
+#include <cstdio>
+#include <cmath>
+int main() {
+   int bad = 0;
+   for (double A : {1000., -3000., 250.}) for (double tb : {10., 50.}) {
+      gm2calc::MSSMNoFV_onshell model;
+      const double Pi = 3.141592653589793;
+      const Eigen::Matrix<double,3,3> U = Eigen::Matrix<double,3,3>::Identity();
+      model.set_alpha_MZ(0.0077552); model.set_alpha_thompson(0.00729735); model.set_g3(std::sqrt(4 * Pi * 0.1184));
+      model.get_physical().MFt = 173.34; model.get_physical().MFb = 4.18; model.get_physical().MFm = 0.1056583715; model.get_physical().MFtau = 1.777;
+      model.get_physical().MVWm = 80.385; model.get_physical().MVZ = 91.1876;
+      model.set_TB(tb); model.set_Ae(1,1,A); model.set_Mu(350); model.set_MassB(150); model.set_MassWB(300); model.set_MassG(1000);
+      model.set_mq2(500 * 500 * U); model.set_ml2(500 * 500 * U); model.set_md2(500 * 500 * U); model.set_mu2(500 * 500 * U); model.set_me2(500 * 500 * U);
+      model.set_Au(2,2,A); model.set_Ad(2,2,A); model.set_Ae(2,2,A); model.set_MA0(1500); model.set_scale(454.7);
+      for (int entry = 0; entry < 2; entry++) {
+         try { if (entry == 0) model.calculate_masses(); else model.convert_to_non_tan_beta_resummed(); } catch (...) { continue; }
+         const Eigen::Matrix<double,3,3> dE = model.get_TYe() - model.get_Ye() * model.get_Ae(), dU = model.get_TYu() - model.get_Yu() * model.get_Au(),
+            dD = model.get_TYd() - model.get_Yd() * model.get_Ad();
+         const double rel = std::max(std::max(dE.cwiseAbs().maxCoeff() / (model.get_TYe().cwiseAbs().maxCoeff() + 1e-300), dU.cwiseAbs().maxCoeff() / (model.get_TYu().cwiseAbs().maxCoeff() + 1e-300)),
+                                     dD.cwiseAbs().maxCoeff() / (model.get_TYd().cwiseAbs().maxCoeff() + 1e-300));
+         if (!(rel < 1e-12)) { bad++; std::printf("A = %g, tan(beta) = %g, after %s: max |T_f - Y_f A_f| / max|T_f| = %.3e, TYe(1,1) = %.10e, Ye(1,1) Ae(1,1) = %.10e\n", A, tb,
+            entry == 0 ? "calculate_masses" : "convert_to_non_tan_beta_resummed", rel, model.get_TYe(1,1), model.get_Ye(1,1) * model.get_Ae(1,1)); }
+      }
+   }
+   std::printf("%d of 12 states with T_f != Y_f A_f\n", bad);
+   return bad ? 1 : 0;
+}
+"""
+
+def trilinear_replay(model, wd):
+    """the REAL library: GM2Calc-scheme points with A_f = 1000, -3000, 250 and tan(beta) = 10, 50; after calculate_masses() and convert_to_non_tan_beta_resummed() compare
+    T_f with Y_f A_f as the model reports them"""
+    from gm2v import native
+    import subprocess
+    exe = native.build_against_library(wd, TRILINEAR_REPLAY, name='trilinear')
+    r = subprocess.run([exe], capture_output=True, text=True, timeout=120)
+    return r.returncode == 1, r.stdout.strip()[-1200:]
+
+def make_trilinear(entry, args):
+    OSF = 'src/MSSMNoFV/MSSMNoFV_onshell.cpp'
+    @obligation('C03.model.trilinear_consistent.%s' % entry, fns=[(OSF, 'MSSMNoFV_onshell::' + entry), (OSF, 'MSSMNoFV_onshell::convert_yukawa_couplings'),
+                                                                   (OSF, 'MSSMNoFV_onshell::convert_yukawa_couplings_treelevel')], replay=trilinear_replay)
+    def ob(ctx, entry=entry, args=args):
+        """ensures, on every path on which the entry point returns, for ALL parameters: TYe = Ye Ae, TYu = Yu Au, TYd = Yd Ad entry by entry (Ye, Yu, Yd the FINAL Yukawa couplings, i.e.
+        including the tan(beta)-resummed ones) -- the spectrum routines, the Delta corrections and the three fits enter by their frame contracts (C05: they write masses, mixings,
+        Mu, M1, M2, ml2(1,1), me2(1,1) only)"""
+        from contracts import c05 as _c05
+        stubs = _c05.step_stubs()
+        stubs.update(_c05.flag_stubs(None))
+        cnt = [0]
+        def havoc_fields(*names):
+            def f(it, a, this):
+                cnt[0] += 1
+                for n in names:
+                    if '(' in n:
+                        nm, i, j = n[:n.index('(')], int(n[-4]), int(n[-2])
+                        this.f[nm].set(i, j, z3.Real('fit%d_%s' % (cnt[0], nm)))
+                    elif n in this.f and not isinstance(this.f[n], (Mat, Obj)):
+                        this.f[n] = z3.Real('fit%d_%s' % (cnt[0], n))
+                return None
+            return f
+        noop = lambda it, a, t: None
+        for n in ('check_input', 'check_problems', 'calculate_DRbar_masses', 'copy_susy_masses_to_pole', 'calculate_mb_DRbar_MZ', 'calculate_MSm'):
+            stubs['MSSMNoFV_onshell::' + n] = noop
+            stubs[n] = noop
+        stubs['MSSMNoFV_onshell::convert_Mu_M1_M2'] = havoc_fields('Mu', 'MassB', 'MassWB')
+        stubs['MSSMNoFV_onshell::convert_ml2'] = havoc_fields('ml2(1,1)')
+        stubs['MSSMNoFV_onshell::convert_me2'] = havoc_fields('me2(1,1)')
+        for n in ('delta_mu_correction', 'delta_tau_correction', 'delta_bottom_correction', 'delta_down_lepton_correction'):
+            stubs[n] = (lambda n: (lambda it, a, t: it.uf('fn_' + n + '_%d' % len(it.sym.pc), *[x for x in a if not isinstance(x, Obj)])))(n)
+        it = Interp(ctx.w, mode='sym', stubs=stubs, div_sides=False)
+        calls = [0]
+        def dstub(n):
+            def f(it_, a, t):
+                calls[0] += 1
+                return z3.Real('%s!%d' % (n, calls[0]))
+            return f
+        for n in ('delta_mu_correction', 'delta_tau_correction', 'delta_bottom_correction', 'delta_down_lepton_correction'):
+            it.stubs[n] = dstub(n)
+        def thunk():
+            m = _c05.model(it)
+            m.f['verbose_output'] = False
+            it.call_method(m, entry, list(args))
+            return m
+        ps = it.run_paths(thunk, max_paths=200)
+        ctx.merge_rules(it)
+        ret = [(s, m) for s, m, e in ps if e is None and m is not None]
+        ctx.record('paths', PROVED if ret else ERROR, 'B', 0, '%d returning paths of %d' % (len(ret), len(ps)))
+        for k, (s, m) in enumerate(ret):
+            for T, Y, A in (('TYe', 'Ye', 'Ae'), ('TYu', 'Yu', 'Au'), ('TYd', 'Yd', 'Ad')):
+                goals = []
+                for i in range(3):
+                    for j in range(3):
+                        rhs = None
+                        for l in range(3):
+                            t = mul(m.f[Y].get(i, l), m.f[A].get(l, j))
+                            rhs = t if rhs is None else add(rhs, t)
+                        goals.append(z3real(m.f[T].get(i, j)) == z3real(rhs))
+                ctx.prove('path%d.%s' % (k, T), list(s.pc) + list(s.axioms), z3.And(*goals), check_vacuity=False,
+                          pins=[{'m.Ae_1_1': 1000, 'm.Ae11': 1000}])
+    return ob
+
+make_trilinear('calculate_masses', [])
+make_trilinear('convert_to_non_tan_beta_resummed', [])
+make_trilinear('convert_to_onshell', [z3.Real('precision_goal'), z3.Real('max_iterations')])
